@@ -24,6 +24,7 @@ ASSUMPTIONS = [
     "vf/ref/p2p_ref.py framing decoder is the specification of the wire format",
 ]
 OBLIGATIONS = {
+    "received_after_rejection": "fragmentations explored in which the caller went on receiving after a checksum-corrupt message was rejected",
     "history_sequences": "operation sequences (non-initial process states) explored",
     "short_read_header": "a recv inside the 24-byte header was answered with fewer bytes than asked",
     "short_read_payload": "a recv inside the payload was answered with fewer bytes than asked",
@@ -135,8 +136,13 @@ class Sock:
         pass
 
 
-def drive(stream, magic, ctx=None, policy=None, menu=None, max_msgs=8):
-    """call recv_msg repeatedly until it raises; returns (messages, terminal)"""
+RAISED = ("<raised>",)
+
+
+def drive(stream, magic, ctx=None, policy=None, menu=None, max_msgs=8, keep_going=False):
+    """call recv_msg repeatedly until it raises; returns (messages, terminal).  keep_going: the caller catches the error of a
+    rejected message and calls recv_msg again on the same socket (a RAISED marker is recorded for every error) until the
+    stream is exhausted and an error is raised, or three calls in a row raise"""
     p2p = _p2p()
     saved = p2p.MAGIC_START_BYTES
     p2p.MAGIC_START_BYTES = magic
@@ -152,6 +158,9 @@ def drive(stream, magic, ctx=None, policy=None, menu=None, max_msgs=8):
             except Pruned:
                 raise
             except Exception as e:
+                if keep_going and sock.off < len(stream) and sock.results[-3:] != [RAISED] * 3 and len(sock.results) < max_msgs:
+                    sock.results.append(RAISED)
+                    continue
                 terminal = "raise"
                 break
             sock.results.append(tuple(r) if isinstance(r, (tuple, list)) else r)
@@ -195,6 +204,34 @@ def judge(stream, magic, obs):
     return out
 
 
+def judge_after(stream, magic, obs):
+    """keep-going mode on a stream whose only invalid frames are checksum-corrupt (magic and declared length intact, so the frame
+    boundaries stay well defined).  Required: no hang; every valid frame BEFORE the first corrupt one is returned; the corrupt
+    frame is never returned; and the messages returned overall are a PREFIX of the valid frames in sending order - an
+    implementation may give up on the connection after a rejection (raise from then on), but it may not return a message that
+    was not sent, nor skip a well-formed message and return a later one."""
+    got, gterm = obs
+    frames = R.split_frames(stream)
+    valid = [tuple(f[:3]) for f in frames if f[3]]
+    before = []
+    for f in frames:
+        if not f[3]:
+            break
+        before.append(tuple(f[:3]))
+    msgs = [g for g in got if g != RAISED]
+    if gterm == "hang":
+        return [("C17/termination/hang/after-rejection", f"recv_msg never terminated after {len(msgs)} messages")]
+    if msgs[:len(before)] != before:
+        return [("C17/framing/wrong-message", f"messages before the corrupt frame: got {[_short(m) for m in msgs[:len(before)]]}")]
+    if msgs != valid[:len(msgs)]:
+        i = next(i for i in range(len(msgs)) if i >= len(valid) or msgs[i] != valid[i])
+        cls = "corrupt-accepted" if any(tuple(f[:3]) == msgs[i] for f in frames if not f[3]) else "lost-or-misframed"
+        return [(f"C17/after-rejection/{cls}", f"after a checksum-corrupt message was rejected and the caller went on receiving on the same "
+                 f"socket, return #{i} is {_short(msgs[i])}; the next well-formed message sent is {_short(valid[i]) if i < len(valid) else None} "
+                 f"(events: {['raise' if g == RAISED else g[1] for g in got]})")]
+    return []
+
+
 def _short(m):
     if not isinstance(m, tuple) or len(m) != 3:
         return repr(m)[:80]
@@ -215,6 +252,9 @@ def alphabet(seed, magic=MAGIC["mainnet"]):
         "version": R.frame(magic, b"version", version),
         "unknown": R.frame(magic, b"abcdefghijkl", f("unk", 5)),
         "tx300": R.frame(magic, b"tx", f("tx300", 300)),
+        # payloads that LOOK like framing: a complete ping frame as payload; a payload ending with magic + "ping" header start
+        "nested": R.frame(magic, b"tx", R.frame(magic, b"ping", f("ping", 8))),
+        "nestedtail": R.frame(magic, b"tx", f("nt", 5) + magic + b"ping".ljust(12, b"\x00") + (8).to_bytes(4, "little")),
     }
 
 
@@ -233,13 +273,14 @@ def chk_schedule(case):
         stream = R.frame(magic, case.get("big_cmd", "block").encode(), filler(case.get("seed", 0), "c17-big", case["big_size"])) + alphabet(case.get("seed", 0))["ping"]
     else:
         stream = bytes.fromhex(case["stream"])
+    kg = bool(case.get("keep_going"))
     if "choices" in case:
-        ex = Explorer(lambda ctx: drive(stream, magic, ctx, menu=_menu(case.get("menu"))), cache=False)
+        ex = Explorer(lambda ctx: drive(stream, magic, ctx, menu=_menu(case.get("menu")), keep_going=kg, max_msgs=12 if kg else 8), cache=False)
         ctx, obs = ex.one(case["choices"])
     else:
-        obs = drive(stream, magic, policy=POLICIES[case["policy"]](case.get("at", 0)),
-                    max_msgs=(case["stream_names"][1] + 8) if "stream_names" in case else 8)
-    return judge(stream, magic, obs)
+        obs = drive(stream, magic, policy=POLICIES[case["policy"]](case.get("at", 0)), keep_going=kg,
+                    max_msgs=(case["stream_names"][1] + 8) if "stream_names" in case else (12 if kg else 8))
+    return judge_after(stream, magic, obs) if kg else judge(stream, magic, obs)
 
 
 POLICIES = {
@@ -362,6 +403,14 @@ def chk_codec(case):
         b = lib(p2p.msg_ser, magic, cmd if case.get("as_bytes", True) else cmd.decode(), payload)
         if b != ("ok", R.frame(magic, cmd, payload)):
             out.append(("C17/codec/msg_ser", f"msg_ser({cmd!r}, {case['size']}B) = {str(b)[:100]}"))
+    parser = {"version": "parse_version_payload", "ping": "parse_ping_payload", "getheaders": "parse_getheaders_payload",
+              "inv": "parse_inv_payload", "addr": "parse_addr_payload"}.get(t)
+    if parser and not out and b[0] == "ok" and case.get("count", 0) <= 300:
+        # aliasing: a caller that edits the parsed structure must not change what the next parse of the same payload returns
+        from vf.edits import aliasing
+        why = aliasing(lambda: getattr(p2p, parser)(b[1]))
+        if why:
+            out.append((f"C17/codec/{t}/aliased-result", f"{parser} of the same payload after the caller edited the first result: {why}"))
     return out
 
 
@@ -414,12 +463,17 @@ def jobs(tier, seed):
         for combo in itertools.product(NAMES, repeat=n):
             w = sum(40 if c == "tx300" else (5 if c == "version" else 1) for c in combo)
             js.append({"name": "frag/" + "+".join(combo), "part": "frag", "msgs": list(combo), "weight": w})
+    for combo in (["nested"], ["nested", "ping"], ["ping", "nested"], ["nestedtail", "ping"], ["nestedtail", "nestedtail"]):
+        js.append({"name": "frag/" + "+".join(combo), "part": "frag", "msgs": combo, "weight": 3})
     for size in (1000, 1500, 5000, 65536, 70000):
         js.append({"name": f"frag-big/{size}", "part": "big", "size": size, "weight": 30})
     pairs = [("ping", "inv"), ("version", "verack"), ("unknown", "ping")] if tier == "quick" else \
         [("ping", "inv"), ("version", "verack"), ("unknown", "ping"), ("addr", "addr"), ("verack", "tx300"), ("inv", "version")]
     js.append({"name": "frag-listlimits", "part": "listlimits", "weight": 12})
     js.append({"name": "long-stream", "part": "longstream", "weight": 8})
+    for bad, where, msgs in (("ping", "checksum", ["verack", "ping", "inv"]), ("inv", "payload", ["ping", "ping", "verack"])) + \
+            ((("verack", "checksum", ["inv", "unknown", "ping"]), ("unknown", "payload", ["ping", "addr"])) if tier == "thorough" else ()):
+        js.append({"name": f"after-reject/{bad}-{where}", "part": "after-reject", "bad": bad, "where": where, "msgs": msgs, "weight": 25})
     for a, b in pairs:
         js.append({"name": f"flip/{a}+{b}", "part": "flip", "msgs": [a, b], "weight": 20})
         js.append({"name": f"trunc/{a}+{b}", "part": "trunc", "msgs": [a, b], "weight": 20})
@@ -446,10 +500,10 @@ def chk_repeat(case):
     return out
 
 
-def _explore_stream(acc, stream, magic, menu=None, bound=None, label=""):
+def _explore_stream(acc, stream, magic, menu=None, bound=None, label="", keep_going=False):
     from vf.explore import Divergence
     try:
-        return _explore_stream_inner(acc, stream, magic, menu, bound, label)
+        return _explore_stream_inner(acc, stream, magic, menu, bound, label, keep_going)
     except Divergence as e:
         # replaying a recorded schedule gave a different execution.  The harness owns every input of recv_msg, so the only
         # remaining variable is state the LIBRARY kept from earlier calls: look for a replayable witness.
@@ -462,20 +516,22 @@ def _explore_stream(acc, stream, magic, menu=None, bound=None, label=""):
         return None
 
 
-def _explore_stream_inner(acc, stream, magic, menu=None, bound=None, label=""):
+def _explore_stream_inner(acc, stream, magic, menu=None, bound=None, label="", keep_going=False):
     cap = 400_000 if TIER["tier"] == "quick" else 6_000_000
     if time.time() > TIER["deadline"]:
         acc.caps.append(f"{label or acc.job['name']}: job time budget exhausted before this stream was explored")
         return None
-    mk = lambda: Explorer(lambda ctx: drive(stream, magic, ctx, menu=_menu(menu)), bound=bound, cache=True,
+    mk = lambda: Explorer(lambda ctx: drive(stream, magic, ctx, menu=_menu(menu), keep_going=keep_going, max_msgs=12 if keep_going else 8), bound=bound, cache=True,
                           max_exec=cap, abort_on_prune=False, deadline=TIER["deadline"])
     determinism_probe(mk)
     ex = mk()
 
     def check(ctx, obs):
         acc.outcomes.add((tuple(obs[0]), obs[1]))
-        for key, desc in judge(stream, magic, obs):
+        for key, desc in (judge_after if keep_going else judge)(stream, magic, obs):
             case = {"stream": stream.hex(), "magic": magic.hex(), "choices": ctx.choices}
+            if keep_going:
+                case["keep_going"] = True
             if menu:
                 case["menu"] = menu
             acc.violation("schedule", case, key, desc)
@@ -530,6 +586,19 @@ def run_job(job):
                 acc.violation("schedule", {"stream_desc": f"block({job['size']}B)+ping", **({"stream": stream.hex()} if len(stream) < 5000 else {"big_size": job["size"]}),
                                            "magic": magic.hex(), "policy": pol, "at": at}, key, desc + f" [{pol} schedule on a {job['size']}-byte payload]")
         acc.sample({"big_payload": job["size"], "executions": ex.executions, "states": ex.states})
+    elif part == "after-reject":
+        # the caller catches the error of a checksum-corrupt message and keeps receiving on the same socket: every fragmentation
+        bad = bytearray(A[job["bad"]])
+        bad[20 if job["where"] == "checksum" else len(bad) - 1] ^= 0x01
+        stream = A[job["msgs"][0]] + bytes(bad) + b"".join(A[m] for m in job["msgs"][1:])
+        ex = _explore_stream(acc, stream, magic, keep_going=True)
+        acc.ob("received_after_rejection", ex.executions if ex else 0)
+        for pol in ("whole", "bytewise", "chunk7"):
+            acc.evaluations += 1
+            acc.executions += 1
+            acc.check("schedule", {"stream": stream.hex(), "magic": magic.hex(), "policy": pol, "keep_going": True}, chk_schedule)
+        acc.sample({"stream": [job["msgs"][0], "corrupt " + job["bad"] + " (" + job["where"] + ")"] + job["msgs"][1:], "bytes": len(stream),
+                    "executions": ex.executions if ex else 0})
     elif part == "longstream":
         # ONE connection delivering 1200 messages (every alphabet message, cyclically): whole-buffer reads, MTU-sized reads, 7-byte
         # reads and one byte per recv() - a long history through recv_msg on the same socket
